@@ -330,6 +330,25 @@ def shard(ctx, payload):
         ctx.label('pair-' + (clause or 'text-key-only'))
         if nontrivial(a) or nontrivial(b):
             ctx.nontrivial(('pair', a, b))
+    # numbers beyond what a double holds exactly (17-20 digits, with and without a leading zero) and of hundreds of digits:
+    # codes all the same (the pattern says \d+), ordered by the number, and every helper returns
+    big = [2 ** 53, 2 ** 53 + 1, 2 ** 53 + 2, 10 ** 17 - 1, 10 ** 17, 10 ** 17 + 1, 123456789012345678901]
+    for i in range(len(big)):
+        for j in range(len(big)):
+            if i != j:
+                for sfx, pad in (('', ''), ('', '0'), ('H', ''), ('W', '0')):
+                    a, b = pad + str(big[i]) + sfx, str(big[j]) + sfx
+                    ctx.count()
+                    ctx.violations(examine_pair(a, b))
+                    ctx.label('pair-beyond-double-precision')
+                    ctx.nontrivial(('pair', a, b))
+    for nd in (310, 400, 1200):
+        for shape in ('%s', '%sH', '4x%s', '4x%sK', '12x%sH', '%sW', '0%s'):
+            s_ = shape % ('9' * nd)
+            if codes.PAT_EVENT_CODE.match(s_):
+                ctx.count()
+                ctx.violations(examine_code(s_))
+                ctx.label('code-of-hundreds-of-digits')
     LONG = ['100000', '20000', '30000', '200000', '50000', '1000000', '99999', '100001', '250000W', '30000W', '42195',
             '4x100000', '4x20000', '1500', '10000', '123456H', '2000H', '400H']
     for i in range(nlists):
